@@ -18,6 +18,8 @@ func TestProp_Tie(t *testing.T)           { PartTie.Run(t) }
 func TestRace_Tie(t *testing.T)           { PartTieRace.Run(t) }
 func TestProp_Anyway(t *testing.T)        { PartAnyway.Run(t) }
 func TestRace_Anyway(t *testing.T)        { PartAnywayRace.Run(t) }
+func TestProp_Deep(t *testing.T)          { PartDeep.Run(t) }
+func TestProp_PriDeep(t *testing.T)       { PartPriDeep.Run(t) }
 
 func TestReplay(t *testing.T) {
 	PartCtl.Replay(t, 1)
@@ -30,4 +32,6 @@ func TestReplay(t *testing.T) {
 	PartTieRace.Replay(t, 20)
 	PartAnyway.Replay(t, 20)
 	PartAnywayRace.Replay(t, 20)
+	PartDeep.Replay(t, 3)
+	PartPriDeep.Replay(t, 1)
 }
